@@ -1,5 +1,6 @@
 """Helpers that run /repo's implementation inside a worker process (see framework.run_impl)."""
-import contextlib, io, os, shutil, tempfile
+import contextlib, io, os, shutil, tempfile, warnings
+warnings.simplefilter("ignore")
 
 _WORK = None
 def workdir():
